@@ -363,3 +363,29 @@ M("c16-journal-end-none", "C16", "C16/DT-END",
 M("c16-twin-is-date", "C16", "silent",
   (C, "        if isinstance(start, date) and not isinstance(start, datetime) and duration is not None and duration.seconds != 0:\n            raise InvalidCalendar(\"When DTSTART is a date, DURATION must be of days or weeks.\")\n        if start is not None and end is not None and is_date(start) != is_date(end):\n            raise InvalidCalendar(\"DTSTART and DTEND",
       "        if start is not None and is_date(start) and duration is not None and duration.seconds != 0:\n            raise InvalidCalendar(\"When DTSTART is a date, DURATION must be of days or weeks.\")\n        if start is not None and end is not None and is_date(start) != is_date(end):\n            raise InvalidCalendar(\"DTSTART and DTEND"))
+
+# ---------------------------------------------------------------- C14
+M("c14-repeat-range-short", "C14", "C14/",
+  (A, "            for i in range(1, repeat + 1):", "            for i in range(1, repeat):"))
+M("c14-repeat-from-zero", "C14", "C14/",
+  (A, "            for i in range(1, repeat + 1):", "            for i in range(0, repeat):"))
+M("c14-multiplier-off", "C14", "C14/ANCHOR",
+  (A, "yield self._add(first, duration * i)", "yield self._add(first, duration * (i - 1))"))
+M("c14-triggers-extra-repeat", "C14", "C14/",
+  (C, "                for _ in range(self.REPEAT):", "                for _ in range(self.REPEAT + 1):"))
+M("c14-swap-start-end", "C14", "C14/ANCHOR",
+  (A, "for trigger in self._repeat(self._add(self._end, alarm.TRIGGER), alarm)", "for trigger in self._repeat(self._add(self._start, alarm.TRIGGER), alarm)"))
+M("c14-related-inverted", "C14", "C14/",
+  (A, '        elif alarm.TRIGGER_RELATED == "START":\n            self._start_alarms.append(alarm)', '        elif alarm.TRIGGER_RELATED != "START":\n            self._start_alarms.append(alarm)'))
+M("c14-absolute-needs-start", "C14", "C14/ANCHOR",
+  (A, "        if self._start is None and self._start_alarms:", "        if self._start is None:"))
+M("c14-repeat-without-duration", "C14", "C14/",
+  (A, "        if repeat and duration:", "        if repeat:"))
+M("c14-date-add-drops-time", "C14", "C14/ANCHOR",
+  (A, "        if is_date(dt):\n            if td.seconds == 0:\n                return dt + td\n            dt = to_datetime(dt)\n        return normalize_pytz(dt + td)", "        return normalize_pytz(dt + td)"))
+M("c14-set-end-uses-start", "C14", "C14/ANCHOR",
+  (A, "            self.set_end(component.end)", "            self.set_end(component.start)"))
+M("c14-related-default-end", "C14", "C14/",
+  (C, '        return trigger.params.get("RELATED", "START")', '        return trigger.params.get("RELATED", "END")'))
+M("c14-twin-rename", "C14", "silent",
+  (A, "            for i in range(1, repeat + 1):\n                yield self._add(first, duration * i)", "            for k in range(1, 1 + repeat):\n                yield self._add(first, k * duration)"))
